@@ -66,6 +66,15 @@ class Run:
             from rules import ir as IR
             self._ir[cfg] = IR.load(cfg, use_cache=self.use_cache)
             self.analysed['ir_functions_' + cfg] = len(self._ir[cfg].funcs)
+            # helper functions that were merely renamed are presented under their tabled names (rules/localnames.py)
+            cfg0 = [k for k, v in self.cfg_map.items() if v == cfg]
+            rn = (self.facts(cfg0[0] if cfg0 else cfg).raw.get('_renamed') or {})
+            for key, m in rn.items():
+                if key.startswith('function '):
+                    for a, b in m.items():
+                        for f in self._ir[cfg].funcs.values():
+                            if f['dem'].startswith(a) and f['dem'][len(a):len(a) + 1] in ('(', '<', ''):
+                                f['dem'] = b + f['dem'][len(a):]
         return self._ir[cfg]
 
     # -- outcomes ------------------------------------------------------------------------
